@@ -789,6 +789,16 @@ def guard_present(fn, b, locals_):
         sl, _ = backward_slice(fn, [dl])
         if not (set(sl) & want):
             continue
+        # `x == K` / `x != K` against a constant is modelled exactly by the engine; if the site is still undecided, that
+        # test is not what bounds the operand (`if off != 64 { 1 << off }` bounds nothing)
+        d = fn.single_def(dl)
+        for _ in range(4):
+            if d and d[0] == "stmt" and d[3]["rv"]["k"] in ("use", "unop") and op_local(d[3]["rv"].get("op", d[3]["rv"].get("a"))) is not None:
+                d = fn.single_def(op_local(d[3]["rv"].get("op", d[3]["rv"].get("a"))))
+            else:
+                break
+        if d and d[0] == "stmt" and d[3]["rv"]["k"] == "binop" and d[3]["rv"]["op"] in ("Eq", "Ne") and (d[3]["rv"]["a"]["k"] == "const" or d[3]["rv"]["b"]["k"] == "const"):
+            continue
         tg = {x for _, x in t["targets"]} | {t["otherwise"]}
         if len(tg) >= 2 and any(b not in fn.reachable_from(x) and x != b for x in tg):
             return True
